@@ -29,8 +29,14 @@ def warm():
 
 
 def solo(hist, i):
-    """the requests addressed to instance i only"""
-    return [h for h in hist if h.get("i") == i]
+    """the requests addressed to instance i only (an instance started in a batch is started alone)"""
+    out = []
+    for h in hist:
+        if h.get("i") == i:
+            out.append(h)
+        elif h["op"] == "StartMany" and i in h["is"]:
+            out.append({"op": "Start", "i": i, "to": h["to"], "status": 200})
+    return out
 
 
 def run(tier, replay_file=None):
@@ -85,6 +91,16 @@ def run(tier, replay_file=None):
     hl, _ = gen.histories("Server", c, 7, defs=LIFE, extra_cfg={"action_constraints": ["MC_Life"]})
     R.cov["life_cycle_histories"] = len(hl)
     sets.append((hl, False))
+    # two instances created by ONE start-instances request, then used with different settings: every such history
+    c2 = consts('{"i1","i2"}', 3, kv='{0,3}', sv='{0}')
+    c2["Ops"] = '{"StartMany","Begin","Step","Results"}'
+    c2["Scen"] = '{"base"}'
+    BATCH = ('MC_Batch == LET n == Len(hist\') h == hist\'[n] IN\n'
+             '   /\\ (n = 1 => h.op = "StartMany") /\\ (n \\in {2, 3} => h.op = "Begin" /\\ h.status = 200)\n'
+             '   /\\ (n = 3 => h.i # hist\'[2].i /\\ h.kv # hist\'[2].kv) /\\ (n >= 4 => h.op \\in {"Step", "Results"})\n')
+    hb, _ = gen.histories("Server", c2, 6, defs=BATCH, extra_cfg={"action_constraints": ["MC_Batch"]})
+    R.cov["batch_start_histories"] = len(hb)
+    sets.append((hb if not quick else hb[::max(1, len(hb) // 60)], False))
     # the same life cycles on a server whose instances read their scenarios from a JSON file in scenarios/ (XMILE source):
     # whatever is cached per file or per process is shared by the instances
     sets.append((hl, "files"))
@@ -110,8 +126,8 @@ def run(tier, replay_file=None):
                     bad["solo_of"] = i
                     R.violation("solo replay: " + bad["clause"], bad)
                     break
-                mine = [(op, st, json.dumps(d, sort_keys=True)) for (n, op, j, st, d) in obs if j == i]
-                alone = [(op, st, json.dumps(d, sort_keys=True)) for (n, op, j, st, d) in obs1 if j == i]
+                mine = [(op, st, json.dumps(d, sort_keys=True)) for (n, op, j, st, d) in obs if j == i and op != "Start"]
+                alone = [(op, st, json.dumps(d, sort_keys=True)) for (n, op, j, st, d) in obs1 if j == i and op != "Start"]
                 compared += len(mine)
                 if mine != alone:
                     k = next(x for x in range(min(len(mine), len(alone))) if mine[x] != alone[x]) if len(mine) == len(alone) else -1
